@@ -543,6 +543,36 @@ func c09Gen(t *rapid.T) c09Case {
 		}
 		variants = append(variants, v)
 	}
+	// targeted: a state whose power levels name a low requirement for one event type, and the same
+	// state with power levels that do not decode (a reused checker must fall back to the defaults as
+	// a whole, not keep pieces of the levels it held before)
+	brokenIdx := -1
+	if rapid.IntRange(0, 5).Draw(t, "decodableThenBroken") == 0 {
+		if !base.HasPL {
+			base.HasPL = true
+			base.PL = c07PLContent(map[string]int64{c07Alice: 100}, map[string]int64{"state_default": 50}, nil, nil)
+		}
+		ev0, _ := base.PL.get("events")
+		if ev0.K != 'o' {
+			ev0 = jv{K: 'o'}
+		}
+		base.PL = base.PL.with("events", ev0.with("m.room.topic", jnum(0)).with("m.room.name", jnum(0)))
+		variants[0] = base
+		v := base
+		v.Members = map[string]string{}
+		for k, m := range base.Members {
+			v.Members[k] = m
+		}
+		v.PL = rapid.SampledFrom([]jv{
+			jobj("users", jv{K: 'a'}),
+			jobj("users_default", jstr("fifty")),
+			jobj("events", jstr("x")),
+			jobj("ban", jv{K: 'o'}),
+			jobj("state_default", jstr(" 50 "), "users", jobj(c07Alice, jstr("100"))),
+		}).Draw(t, "dtbBroken")
+		variants = append(variants, v)
+		brokenIdx = len(variants) - 1
+	}
 	var built []c07Built
 	for i, v := range variants {
 		b := c07Build(v)
@@ -608,7 +638,17 @@ func c09Gen(t *rapid.T) c09Case {
 	if focus != "" {
 		c.Final.Event = c09Resend(version, c.Final.Event, focus, false)
 	}
-	if base.HasPL && rapid.IntRange(0, 5).Draw(t, "typedThenState") == 0 {
+	if brokenIdx >= 0 {
+		mk := func(room int, e raEv, id string) vfBytes {
+			e.Room, e.Depth, e.TS, e.Prev, e.ID = built[room].RoomID, 50, 5000, []string{evFakeID(t, version, id+"prev")}, "$c09"+id+":a.example"
+			return vfBytes(jplain(raJSON(version, e)))
+		}
+		typ := rapid.SampledFrom([]string{"m.room.topic", "m.room.name"}).Draw(t, "dtbType")
+		who := rapid.SampledFrom(c07Users).Draw(t, "dtbWho")
+		c.Steps = append(c.Steps, c09Step{Room: 0, Event: mk(0, raEv{Type: typ, Sender: rapid.SampledFrom(c07Users).Draw(t, "dtbFirst"), StateKey: raSK(""), Content: jobj("x", jnum(1))}, "dtbstep")})
+		c.Final = c09Step{Room: brokenIdx, Event: mk(brokenIdx, raEv{Type: typ, Sender: who, StateKey: raSK(""), Content: jobj("x", jnum(2))}, "dtbfinal")}
+		fr = brokenIdx
+	} else if base.HasPL && rapid.IntRange(0, 5).Draw(t, "typedThenState") == 0 {
 		// a power-levels event that NAMES an event type the current levels do not list goes through the
 		// checker (allowed or not — it is not applied: the state stays the same), then a state event of
 		// that type is checked against the same state: its requirement is still state_default
